@@ -11,6 +11,7 @@ use crate::exec::*;
 use crate::gen_query::*;
 use crate::props::c06::prepare;
 use crate::run::{Ctx, Failure, Obs, Property, Tier};
+use crate::sql::E;
 use crate::stmt::*;
 use crate::tape::Tape;
 
@@ -86,6 +87,24 @@ impl Property for C11 {
         let mut g = gen_query(t, ctx, opts);
         if ctx.excluded("c11_aggregate_distinct") && !g.query.group_by.is_empty() {
             g.query.distinct = false;
+        }
+        // a key that is written differently on different rows (1 and 1.0), an aggregate that is computed only when the table is
+        // built (PERCENTILE) and one that may have no value on the group's first row (COUNT(c)), and nothing else: the group's name
+        // is then settled at different moments by a line-by-line and by a batch run
+        if g.query.group_by.iter().any(|k| matches!(k, E::Case(_, _))) && t.chance(1, 2) {
+            let numeric: Vec<String> = g.table.cols.iter().filter(|c| matches!(c.1, Ty::Int | Ty::Real)).map(|c| c.0.clone()).collect();
+            if !numeric.is_empty() {
+                let x = E::col(t.pick(&numeric).as_str());
+                let c = E::col(g.table.cols[t.draw(g.table.cols.len())].0.as_str());
+                let keys = g.query.group_by.clone();
+                g.query.items.retain(|(e, _)| keys.contains(e));
+                if g.query.items.is_empty() {
+                    g.query.items.push((keys[0].clone(), Some("k0".into())));
+                }
+                g.query.items.push((E::Agg("PERCENTILE".into(), false, vec![x, E::Real("0.5".into())]), Some("ap".into())));
+                g.query.items.push((E::Agg("COUNT".into(), false, vec![c]), Some("ac".into())));
+                g.query.having = None;
+            }
         }
         let lines = crate::props::c04::gen_group_lines(t, &g.table, 14);
         let joined_lines = g.joined.as_ref().map(|j| gen_data(t, j, 8)).unwrap_or_default();
